@@ -5,6 +5,7 @@ package ref
 
 import (
 	"encoding/hex"
+	"errors"
 	"fmt"
 	"regexp"
 	"sort"
@@ -129,6 +130,10 @@ func InterpretCommitName(db objects.Store, rs Store, commitStr string, excludeTa
 			}
 			hash, commit, err = PeelCommit(db, commitSum, commit, numPeel)
 			return
+		}
+		if !errors.Is(err, ErrKeyNotFound) {
+			// the refs could not be read: that is not "no such branch"
+			return "", nil, nil, err
 		}
 	}
 	if HashPattern.MatchString(name) {
